@@ -43,7 +43,7 @@ def _runs(matrix, x, y, incby):
     return out
 
 
-@rule('C10', 'R1', 7, 'one run extractor (bounded-exhaustive: maximal dark runs, each once, in row order); EPS/PDF/TeX use incby=-1')
+@rule('C10', 'R1', 1, 'the run extractor (bounded-exhaustive: maximal dark runs, each once, in row order, for both row directions); how the writers call it is part of R2')
 def r1(fx):
     it = Interp(max_steps=200_000_000)
     f = make_callable(fx.forest, 'utils', 'matrix_to_lines', it)
@@ -78,23 +78,6 @@ def r1(fx):
             bad = (m, got, _runs(m, 3, 4, 1))
     yield ob(f'matrix_to_lines on {n} small matrices', bad is None, fn, got=f'{bad[0]}: {bad[1]}' if bad else 'maximal dark runs',
              want=f'{bad[2]}' if bad else 'maximal dark runs')
-    want = {'write_svg': ('matrix_to_lines(matrix, H_x, H_y)', '(border, border + .5)'), 'write_eps': ('matrix_to_lines(matrix, border, H_y, incby=-1)', None),
-            'write_pdf': ('matrix_to_lines(matrix, 0, 0, incby=-1)', None), 'write_tex': ('matrix_to_lines(matrix, H_x, H_y, incby=-1)', '(border, -border)')}
-    for w, (p, origin) in want.items():
-        fnw = fx.fn('writers', w)
-        calls = [c for c in src.calls_in(fnw, 'matrix_to_lines')]
-        c = single(calls, f'matrix_to_lines call in {w}')
-        b = pat.match(c, p)
-        yield ob(f'{w}: draws matrix_to_lines(matrix, ...)', b is not None, c, got=ast.unparse(c), want=p.replace('H_', ''))
-        if origin and b is not None:
-            # the start point: `x, y = <origin>` (a tuple assignment) feeding the call
-            need(isinstance(b['x'], ast.Name) and isinstance(b['y'], ast.Name), f'{w}: origin arguments')
-            asg = [s for s in src.statements(fnw.body) if isinstance(s, ast.Assign) and isinstance(s.targets[0], ast.Tuple)
-                   and [ast.unparse(t) for t in s.targets[0].elts] == [b['x'].id, b['y'].id]]
-            blk, idx = nf.block_of(nf.enclosing_stmt(c))
-            asg = [s for s in asg if s in blk[:idx]] or asg
-            a = single(asg, f'{w}: origin assignment')
-            yield ob(f'{w}: origin = {origin}', nf.same(a.value, origin), a, got=ast.unparse(a.value), want=origin)
 
 
 TAINT = {'scale', 'width', 'height'}
@@ -178,20 +161,43 @@ def r6(fx):
     fx.info['C10.R6 bytes interpreted'] = len(data)
 
 
-@rule('C10', 'R8', 2, 'colour components map linearly: c -> c/255 for all 256 integer values, floats in [0, 1] unchanged')
+@rule('C10', 'R8', 4, 'EPS / PDF colour operands: component c of an RGB tuple is written as c/255 for all 256 values; float components in [0, 1] unchanged, others refused')
 def r8(fx):
-    it = Interp(max_steps=5_000_000)
-    genv = callable_env(fx.forest, 'writers', it)
-    for q in ('write_eps.rgb_to_floats.to_float', 'write_pdf.to_pdf_color.to_float'):
-        f = FuncVal(fx.fn('writers', q), genv, it)
-        bad = [(c, f(c)) for c in range(256) if abs(f(c) - c / 255.0) > 1e-12]
-        fl = [(x, f(x)) for x in (0.0, 0.5, 1.0) if f(x) != x]
-        try:
-            f(1.5)
-            rng = 'accepted 1.5'
-        except PyRaise as e:
-            rng = e.name
-        yield ob(f'{q}', not bad and not fl and rng == 'ValueError', fx.fn('writers', q), got=f'{bad[:3]} {fl} float 1.5: {rng}', want='c/255; floats unchanged; 1.5 -> ValueError')
+    """The writers are rendered (marker runs, see below) with each of the 256 component values in turn; the operand of the
+    colour operator is read back from the output."""
+    import re
+    it = Interp(max_steps=50_000_000)
+    for writer, rx_, tol in (('write_eps', r'^([0-9.]+) ([0-9.]+) ([0-9.]+) setrgbcolor$', 6e-7), ('write_pdf', r'([0-9.eE+-]+) ([0-9.eE+-]+) ([0-9.eE+-]+) RG ', 1e-12)):
+        fn = fx.fn('writers', writer)
+        bad = []
+        for c in range(256):
+            clr = (c, 255 - c, (c * 7 + 3) % 256)
+            if clr == (0, 0, 0):
+                continue
+            txt, _ = _render(fx, it, writer, 1, clr, None, size=11)
+            if writer == 'write_pdf':
+                m = re.search(r'<Z>(.*)</Z>', txt, re.S)
+                txt = m.group(1) if m else ''
+            m = re.search(rx_, txt, re.M)
+            got = tuple(float(x) for x in m.groups()) if m else None
+            want = tuple(x / 255.0 for x in clr)
+            if got is None or any(abs(a - b) > tol for a, b in zip(got, want)):
+                bad.append((clr, got))
+        yield ob(f'{writer}: integer components 0..255 -> c/255', not bad, fn, got=bad[:3], want=[])
+        outs = []
+        for clr, want in (((0.0, 0.5, 1.0), (0.0, 0.5, 1.0)), ((1.5, 0.0, 0.0), 'ValueError'), ((0.2, -0.1, 0.0), 'ValueError')):
+            try:
+                txt, _ = _render(fx, it, writer, 1, clr, None, size=11)
+                if writer == 'write_pdf':
+                    m = re.search(r'<Z>(.*)</Z>', txt, re.S)
+                    txt = m.group(1) if m else ''
+                m = re.search(rx_, txt, re.M)
+                got = tuple(float(x) for x in m.groups()) if m else None
+            except PyRaise as e:
+                got = e.name
+            if got != want:
+                outs.append((clr, got, want))
+        yield ob(f'{writer}: float components in [0, 1] are written unchanged, others are refused with ValueError', not outs, fn, got=outs, want=[])
 
 
 # ---- rendering with the symbol abstracted away -----------------------------------------------------
@@ -250,6 +256,8 @@ def _render(fx, it, writer, scale, dark, light, border=None, size=21, **extra):
     calls = []
 
     def mtl(matrix, x, y, incby=1):
+        if matrix != '<matrix>':
+            raise Unknown('the run extractor is asked for something else than the symbol matrix')
         calls.append((x, y, incby))
         return iter([((x + a, y + r1 * incby), (x + b_, y + r2 * incby)) for (a, r1), (b_, r2) in RUNS])
     part = __import__('functools').partial
